@@ -36,6 +36,14 @@ pub struct Upload {
     pub abandoned: Option<Abandoned>,
     pub reply_code: u8,
     pub reply_body: Vec<u8>,
+    /// repeated deliveries are true retransmissions (same message id and
+    /// token) instead of fresh requests
+    #[serde(default)]
+    pub retransmit: bool,
+    /// the upload's first message id; the abandoned predecessor starts at the
+    /// same id (a client that restarted)
+    #[serde(default)]
+    pub mid_base: Option<u16>,
 }
 
 #[derive(Clone, Debug, PartialEq, Eq, Hash, Serialize, Deserialize)]
@@ -87,8 +95,11 @@ fn deliver(
     block: Option<(u32, bool, u8)>,
     payload: &[u8],
     reply: &AppSpec,
+    same_mid: bool,
 ) -> (Outcome, usize) {
-    *mid = mid.wrapping_add(1);
+    if !same_mid {
+        *mid = mid.wrapping_add(1);
+    }
     let req = u.request(*mid, block.map(|(n, m, s)| block_bytes(n, m, s)), payload.to_vec());
     let mut calls = 0;
     let out = exchange(handler, &req.msg().encode().unwrap(), u.endpoint, &mut |_r| {
@@ -101,6 +112,9 @@ fn deliver(
 pub fn run_upload(handler: &mut BlockHandler<u8>, u: &Upload, budget: usize, mid: &mut u16) -> Result<Facts, Fail> {
     let mut facts = Facts::default();
     let reply = AppSpec { code: u.reply_code, options: vec![], body: u.reply_body.clone() };
+    if let Some(b) = u.mid_base {
+        *mid = b;
+    }
     // an earlier upload to the same resource, abandoned midway
     if let Some(a) = &u.abandoned {
         let old = body(a.body_len, a.body_seed ^ 0x55);
@@ -109,7 +123,7 @@ pub fn run_upload(handler: &mut BlockHandler<u8>, u: &Upload, budget: usize, mid
         // only non-final blocks are delivered
         let n = a.blocks.min(chunks.len().saturating_sub(1));
         for (i, c) in chunks.iter().take(n).enumerate() {
-            let (out, calls) = deliver(handler, u, mid, Some((i as u32, true, a.szx)), c, &reply);
+            let (out, calls) = deliver(handler, u, mid, Some((i as u32, true, a.szx)), c, &reply, false);
             if let Some(msg) = out.panicked() {
                 fail!("c09-panic", "handler panicked during the abandoned upload: {msg}");
             }
@@ -122,6 +136,10 @@ pub fn run_upload(handler: &mut BlockHandler<u8>, u: &Upload, budget: usize, mid
         if n > 0 {
             facts.had_abandoned = true;
         }
+    }
+    if let Some(b) = u.mid_base {
+        // the new upload counts its message ids from the same base again
+        *mid = b;
     }
     let data = body(u.body_len, u.body_seed);
     let size = u.size();
@@ -144,7 +162,7 @@ pub fn run_upload(handler: &mut BlockHandler<u8>, u: &Upload, budget: usize, mid
             if k > 0 {
                 facts.had_duplicate = true;
             }
-            let (out, calls) = deliver(handler, u, mid, Some((i as u32, !is_final, u.szx)), c, &reply);
+            let (out, calls) = deliver(handler, u, mid, Some((i as u32, !is_final, u.szx)), c, &reply, k > 0 && u.retransmit);
             let ctx = format!(
                 "budget {budget}, body {} bytes, block size {size}, block {i}{} delivery {}, abandoned predecessor {:?}",
                 u.body_len,
@@ -439,6 +457,8 @@ fn upload() -> BoxedStrategy<Upload> {
                 }),
                 reply_code,
                 reply_body,
+                retransmit: body_seed % 2 == 0,
+                mid_base: if body_seed % 3 == 0 { Some(body_seed as u16 * 257) } else { None },
             }
         })
         .boxed()
@@ -501,6 +521,8 @@ pub fn run(ctx: &Ctx, rep: &mut Report) {
                     },
                     reply_code: 0x44,
                     reply_body: vec![],
+                    retransmit: variant == 3,
+                    mid_base: if variant >= 2 { Some(4000) } else { None },
                 };
                 let budget = u.min_budget().max(60);
                 cases.push(Plan { budget, uploads: vec![u] });
@@ -543,6 +565,8 @@ pub fn run(ctx: &Ctx, rep: &mut Report) {
             abandoned: None,
             reply_code: 0x44,
             reply_body: vec![],
+            retransmit: len % 2 == 0,
+            mid_base: None,
         };
         let budget = u.min_budget().max(60);
         dup_final.push(Plan { budget, uploads: vec![u] });
@@ -576,7 +600,7 @@ pub fn run(ctx: &Ctx, rep: &mut Report) {
                     (proptest::sample::select(vec![12u16, 17, 60, 2048]), proptest::collection::vec(any::<u8>(), 0..12)),
                     0..3,
                 ),
-                prop_oneof![Just(0u8), Just(1), Just(2)],
+                prop_oneof![Just(0u8), Just(1), Just(2), Just(3)],
                 0usize..1200,
                 -16i32..=16,
                 any::<u16>(),
@@ -605,6 +629,8 @@ pub fn run(ctx: &Ctx, rep: &mut Report) {
                             let budget = overhead + 28 + (r as usize % 64);
                             (budget, plen % 200)
                         }
+                        // requests larger than any permitted message (over 1280 bytes)
+                        3 => ((overhead + 28 + r as usize % 1300).min(1280).max(overhead + 28), 1200 + plen % 900),
                         _ => ((overhead + 28 + r as usize % 1300).min(1280).max(overhead + 28), plen),
                     };
                     Plain { budget, method, path, token_len, con, extra, payload_len }
